@@ -17,6 +17,10 @@ pub open spec fn PP() -> int { %(P)s_PRIME as int }
 // mont_rel(a, v): a is the Montgomery representative of the residue class of v
 pub open spec fn mont_rel(a: int, v: int) -> bool { 0 <= a < PP() && (a - v * RR()) %% PP() == 0 }
 
+// <W as From<bool>>::from (std: false -> 0, true -> 1)
+fn bool_as_%(W)s(b: bool) -> (r: %(W)s) ensures r == (if b { 1%(W)s } else { 0%(W)s }) { b as %(W)s }
+fn bool_as_%(W2)s(b: bool) -> (r: %(W2)s) ensures r == (if b { 1%(W2)s } else { 0%(W2)s }) { b as %(W2)s }
+
 // [trusted: std semantics] num_traits' OverflowingAdd/OverflowingSub forward to these inherent methods
 pub assume_specification [%(W)s::overflowing_add] (x: %(W)s, y: %(W)s) -> (r: (%(W)s, bool))
     ensures r.0 as int == (x as int + y as int) %% RR(),
@@ -24,7 +28,7 @@ pub assume_specification [%(W)s::overflowing_add] (x: %(W)s, y: %(W)s) -> (r: (%
 pub assume_specification [%(W)s::overflowing_sub] (x: %(W)s, y: %(W)s) -> (r: (%(W)s, bool))
     ensures r.0 as int == (x as int - y as int) %% RR(),
             r.1 == ((x as int) < (y as int));
-''' % dict(R=R, P=P, W=W)
+''' % dict(R=R, P=P, W=W, W2=w['W2'])
     return txt, c
 
 
@@ -62,6 +66,8 @@ def unit(bits):
     W, W2, P, p = w['W'], w['W2'], w['pfx'].upper(), w['pfx']
     u = VUnit('fp_ops%d' % bits, 'FieldOps add/sub/neg/modp + single-word Montgomery mul, %s instance' % w['S'])
     pre, c = prelude(bits)
+    h = 'fp%d_add_sub_full' % bits
+    u.paired_kani = {p + '_add': [h], p + '_sub': [h], p + '_neg': [h], p + '_modp': [h]}
     u.raw(pre, 'prelude')
     fmt = dict(P=P, MAX=w['max'], W=W, W2=W2, p=p, R2T=w['R2T'], R=w['R'])
 
@@ -177,7 +183,7 @@ ensures
            rewrites=[(r'let hi_lo = \|v: Self::DoubleWord\| -> \(W, W\) \{.*?\};', '', 1),
                      (r'\bhi_lo\(', p + '_hi_lo(', 3),
                      (AS_, r'(\1 as %s)' % W2, 6),
-                     (r'<Self::DoubleWord as From<bool>>::from\((\w+)\)', r'(\1 as %s)' % W2, 1),
+                     (r'<Self::DoubleWord as From<bool>>::from\(', 'bool_as_%s(' % W2, 1),
                      (r'\bSelf::MU\b', P + '_MU', 1)]
            + tsel(bits, 'ovf', 'bool', 'prime', 'zero') + wty(bits),
            sig=_commas('''
